@@ -35,6 +35,9 @@ class VariantAdapter(envcorr.Adapter):
     def n_of(self, inst):
         return inst["n"]
 
+    def sizes(self, tier):
+        return [1, 2, 3, 5, 8] if tier == "quick" else [1, 2, 3, 5, 8, 13, 20]
+
     def c05_ok(self, f):
         return True
 
@@ -44,7 +47,7 @@ class VariantAdapter(envcorr.Adapter):
     def c05_cause(self, inst, c, t, f):
         return ""
 
-    def c05_opt_cause(self, inst, best):
+    def c05_opt_cause(self, inst, best, f):
         return ""
 
     def special_cases(self, rng, inst, sol):
@@ -54,6 +57,9 @@ class VariantAdapter(envcorr.Adapter):
         return self.line("check", inst, list(sol))
 
     def classify(self, kind, inst, lab, sol, f):
+        return ""
+
+    def reward_exception_cause(self, insts, actions, e):
         return ""
 
     def boundary_events(self, inst, actions):
@@ -217,8 +223,12 @@ class CvrptwAdapter(VariantAdapter):
         return out
 
     def classify(self, kind, inst, lab, sol, f):
-        # check_sound_partial covers integral data: there the `.int()` truncation is the identity
-        if kind == "accepts-infeasible" and inst["S"] != 1024 and f.get("base") == "1":
+        # known defect = the `.int()` truncation and nothing else: visits and loads are fine (base=1), the
+        # modelled checker accepts only because of the truncation (the same checker with an exact clock,
+        # `checkx`, rejects), and the data are not integral (on integral data truncation is the identity,
+        # `check_sound_partial`)
+        if (kind == "accepts-infeasible" and inst["S"] != 1024 and f.get("base") == "1"
+                and f.get("check") == "1" and f.get("checkx") == "0"):
             return "int-clock"
         return ""
 
@@ -309,6 +319,12 @@ class SdvrpAdapter(VariantAdapter):
             used += q
         return ev
 
+    def reward_exception_cause(self, insts, actions, e):
+        # CVRPEnv._get_reward: gather_by_index(locs, actions) squeezes a length-1 step dimension
+        if all(len(a) == 1 for a in actions) and "number of dimensions" in str(e):
+            return "single-step-episode"
+        return ""
+
     def _greedy_routes(self, inst, order):
         """harness-side construction of a feasible visit sequence: customers in `order`, each served
         completely before the next, returning to the depot whenever the vehicle is full"""
@@ -369,13 +385,17 @@ class SdvrpAdapter(VariantAdapter):
 
     def classify(self, kind, inst, lab, sol, f):
         sol = list(sol)
-        if kind == "rejects-feasible":
-            if 0 not in sol:
-                return "no-depot-visit"
-            if any(sol[k] == 0 and sol[k + 1] == 0 for k in range(len(sol) - 1)) and f.get("greedy", "1") == "1":
-                return "double-depot"
-            if f.get("greedy") == "0":
-                return "nongreedy-split"
+        if kind != "rejects-feasible" or f.get("check") != "0":
+            return ""
+        # each known rule explains a rejection only if undoing exactly that trigger makes the modelled checker
+        # accept: `checkz` = verdict with a depot visit appended, `checkd` = with repeated depot visits collapsed
+        if f.get("greedy") == "1" and 0 not in sol and f.get("checkz") == "1":
+            return "no-depot-visit"
+        if (f.get("greedy") == "1" and 0 in sol and f.get("checkd") == "1"
+                and any(sol[k] == 0 and sol[k + 1] == 0 for k in range(len(sol) - 1))):
+            return "double-depot"
+        if f.get("greedy") == "0" and lab == "nongreedy-split-with-witness":
+            return "nongreedy-split"
         return ""
 
     def c05_ok(self, f):
@@ -603,9 +623,13 @@ class SvrpAdapter(VariantAdapter):
 
     def classify(self, kind, inst, lab, sol, f):
         sol = list(sol)
-        if kind == "accepts-infeasible" and f.get("closed") == "1":
+        # only the OPEN last route is infeasible (everything closed by a depot visit is fine) and it is non-empty
+        if (kind == "accepts-infeasible" and f.get("closed") == "1" and f.get("check") == "1"
+                and sol and sol[-1] != 0):
             return "open-last-segment"
-        if kind == "rejects-feasible" and sol.count(0) > inst["T"]:
+        # the index error of `techs[batch, tech]` at a depot visit number > T
+        if (kind == "rejects-feasible" and sol.count(0) > inst["T"] and f.get("_exc") == "IndexError"
+                and f.get("check") == "0"):
             return "more-depot-visits-than-technicians"
         return ""
 
@@ -614,13 +638,17 @@ class SvrpAdapter(VariantAdapter):
         return bool(c) and (c[0] == 0 or any(c[k] == 0 and c[k + 1] == 0 for k in range(len(c) - 1)))
 
     def c05_cause(self, inst, c, t, f):
-        # a depot→depot move (technician sent home without a customer) that the mask refuses
-        if c[t] == 0 and (t == 0 or c[t - 1] == 0):
+        # known pruning: a depot→depot move of a technician who COULD serve a remaining customer, i.e. the
+        # candidate is not canonical in the sense of `Rl4co.Svrp.Canonical` (decided by Lean: `canon`), and the
+        # model's mask refuses it as well; a blocked canonical candidate is a fresh violation
+        if c[t] == 0 and (t == 0 or c[t - 1] == 0) and f.get("canon") == "0" and f.get("adm") == "0":
             return "skipped-technician"
         return ""
 
-    def c05_opt_cause(self, inst, best):
-        return "skipped-technician" if best is not None and self._has_empty_route(best) else ""
+    def c05_opt_cause(self, inst, best, f):
+        if best is not None and f is not None and self._has_empty_route(best) and f.get("canon") == "0":
+            return "skipped-technician"
+        return ""
 
     def enumerate_solutions(self, inst):
         """canonical candidates: customer permutations cut into routes, optionally preceded by skipped
@@ -729,6 +757,8 @@ THEOREMS = {
     ("C05", "svrp"): _T("Rl4co.Props.C05.Svrp",
         ("Rl4co.Svrp.run_of_feasible", "partial", "every Spec-feasible solution with a depot visit in which a technician stays at home only "
          "when he can serve nothing that is left is a finished mask-confined run"),
+        ("Rl4co.Svrp.canonical_iff", P, "the executable canonicity test the harness uses to attribute a blocked solution to the known "
+         "pruning decides `Canonical`"),
         ("Rl4co.Svrp.run_of_feasible_counterexample", P, "¬ statement without that clause: [0,1,2] is feasible, its first move is masked"),
         ("Rl4co.Svrp.skipped_technician_better", P, "… and strictly better (24 < 32) than everything the mask admits on that instance")),
     ("C06", "svrp"): _T("Rl4co.Props.C06.Svrp",
@@ -784,7 +814,8 @@ def svrp_single_technician_probe(ctx):
             if rep.get("ovf", "-1") == "-1":
                 ctx.disagreement("svrp: real env raised, model predicts no technician-index overflow",
                                  {"inst": inst, "error": str(e)[:200]})
-            vc.viol(ctx, "svrp:crash-single-technician",
+            known = ("out of bounds" in str(e) and rep.get("ovf", "-1") != "-1")
+            vc.viol(ctx, "svrp:crash-single-technician" if known else "svrp:env-raised",
                           "with one technician the step that finishes the episode raises (techs index out of range)",
                           {"inst": inst, "error": str(e)[:200], "model_overflow_at_step": rep.get("ovf")})
 
@@ -837,7 +868,11 @@ def cvrptw_checker_row0_probe(ctx):
                 ctx.disagreement("cvrptw: batched checker model (row-0 depot deadline) differs from the real checker",
                                  {"insts": insts, "actions": acts, "real": real, "model": [f.get("check") for f in fs]})
             if all(f.get("feas") == "1" for f in fs) and not real:
-                vc.viol(ctx, "cvrptw:checker-rejects-feasible:row0-depot-deadline",
+                # explained by the row-0 read only if the modelled checker rejects with row 0's deadline and
+                # accepts every row with the row's own deadline (`checkown`)
+                known = (not model) and all(f.get("checkown") == "1" for f in fs)
+                vc.viol(ctx, "cvrptw:checker-rejects-feasible:row0-depot-deadline" if known
+                        else "cvrptw:checker-rejects-feasible:batched",
                               "batched checker rejects feasible solutions: a row is tested against row 0's depot deadline",
                               {"insts": insts, "actions": acts, "row0_depot_deadline": e0})
 
@@ -855,7 +890,7 @@ def svrp_termination(ctx):
 for _fam, _ad in (("cvrptw", TW), ("sdvrp", SD), ("svrp", SV)):
     _unit("C01", _fam, lambda ctx, ad=_ad: vc.check_feasibility(ctx, ad))
     _unit("C02", _fam, (svrp_termination if _fam == "svrp" else (lambda ctx, ad=_ad: vc.check_termination(ctx, ad))))
-    _unit("C03", _fam, lambda ctx, ad=_ad: envcorr.check_reward(ctx, ad))
+    _unit("C03", _fam, lambda ctx, ad=_ad: vc.check_reward(ctx, ad))
     _unit("C04", _fam, lambda ctx, ad=_ad: vc.check_batch_independence(ctx, ad))
     _unit("C05", _fam, lambda ctx, ad=_ad: vc.check_completeness(ctx, ad))
     _unit("C06", _fam, (cvrptw_checker if _fam == "cvrptw" else (lambda ctx, ad=_ad: vc.check_checker(ctx, ad))))
